@@ -111,15 +111,80 @@ def _mentions(node, word):
     return False
 
 
-def compare_op(fn, left_word, right_word, what):
-    """operator of the first comparison in fn whose left side mentions left_word and right side right_word"""
+def _split_offset(node):
+    """node = X, X + c or X - c with an integer literal c  ->  (X, c)"""
+    if isinstance(node, ast.BinOp) and isinstance(node.op, (ast.Add, ast.Sub)):
+        r = node.right
+        if isinstance(r, ast.Constant) and isinstance(r.value, int) and not isinstance(r.value, bool):
+            return node.left, (r.value if isinstance(node.op, ast.Add) else -r.value)
+        l = node.left
+        if isinstance(node.op, ast.Add) and isinstance(l, ast.Constant) and isinstance(l.value, int) and not isinstance(l.value, bool):
+            return node.right, l.value
+    return node, 0
+
+
+FLIP = {"lt": "gt", "le": "ge", "gt": "lt", "ge": "le", "eq": "eq", "ne": "ne"}
+NEGATE = {"lt": "ge", "le": "gt", "gt": "le", "ge": "lt", "eq": "ne", "ne": "eq"}
+
+
+def compare_shape(fn, left_word, right_word, what):
+    """(op, off): the first comparison in fn between something mentioning left_word (any expression when
+    None) and right_word reads  `subject op bound + off`.  Recognised spellings: the bound on either side,
+    an integer literal added to or subtracted from either side, and a directly enclosing `not`.  The
+    operator and offset are emitted as they are written; the canonical operator the models use is derived
+    from them by `canonical_guard`, and that derivation is re-proved in Lean on every run
+    (Lemmas/GuardCanon.lean), so it is checked, not trusted."""
+    negated = set()
+    for node in ast.walk(fn):
+        if isinstance(node, ast.UnaryOp) and isinstance(node.op, ast.Not) and isinstance(node.operand, ast.Compare):
+            negated.add(id(node.operand))
     for node in ast.walk(fn):
         if isinstance(node, ast.Compare) and len(node.ops) == 1:
-            if (left_word is None or _mentions(node.left, left_word)) and _mentions(node.comparators[0], right_word):
-                op = CMP.get(type(node.ops[0]))
-                if op:
-                    return op
+            op = CMP.get(type(node.ops[0]))
+            if not op:
+                continue
+            a, b = node.left, node.comparators[0]
+            if (left_word is None or _mentions(a, left_word)) and _mentions(b, right_word) and not (left_word is None and _mentions(a, right_word)):
+                pass
+            elif _mentions(a, right_word) and (left_word is None or _mentions(b, left_word)) and not (left_word is None and _mentions(b, right_word)):
+                a, b, op = b, a, FLIP[op]
+            else:
+                continue
+            _, ja = _split_offset(a)
+            _, kb = _split_offset(b)
+            if id(node) in negated:
+                op = NEGATE[op]
+            return op, kb - ja
     raise ExtractError(f"comparison not found: {what}")
+
+
+def canonical_guard(op, off, clamp, what):
+    """the operator c with  (subject op bound+off)  <=>  (subject c bound)  over the integers; for a clamp
+    (`if v c M: cell = M else: cell = v`) `>=` and `>` (and `<=`, `<`) give the same result and the strict
+    one is canonical.  Raises ExtractError when there is no such operator."""
+    c = None
+    if off == 0:
+        c = op
+    elif (op, off) == ("lt", 1):
+        c = "le"
+    elif (op, off) == ("le", -1):
+        c = "lt"
+    elif (op, off) == ("gt", -1):
+        c = "ge"
+    elif (op, off) == ("ge", 1):
+        c = "gt"
+    if c is None:
+        raise ExtractError(f"{what}: `{op}` against the bound {off:+d} is not one of the recognised spellings")
+    if clamp:
+        c = {"ge": "gt", "le": "lt"}.get(c, c)
+    return c
+
+
+def guard_fact(fn, left_word, right_word, what, clamp=False, allow_offset=True):
+    op, off = compare_shape(fn, left_word, right_word, what)
+    if off != 0 and not allow_offset:
+        raise ExtractError(f"{what}: offset {off:+d} in a non-integer comparison")
+    return ("Guard", (op, off, canonical_guard(op, off, clamp, what)))
 
 
 def float_const_eval(node):
@@ -414,14 +479,14 @@ def _extract_into(repo, facts, attempt):
     attempt(["cmsLn2"], cms_float)
 
     # guards
-    attempt(["expGrowCmp"], lambda: ("Cmp", compare_op(_find_def(exp, "ExpandingBloomFilter", "__check_for_growth"), "elements_added", "est_elements", "expanding growth test")))
-    attempt(["rotReadyCmp"], lambda: ("Cmp", compare_op(_find_def(exp, "RotatingBloomFilter", "__rotate_bloom_filter"), "elements_added", "estimated_elements", "rotating ready test")))
-    attempt(["rotRoomCmp"], lambda: ("Cmp", compare_op(_find_def(exp, "RotatingBloomFilter", "__rotate_bloom_filter"), "current_queue_size", "_queue_size", "rotating room test")))
-    attempt(["cmsAddClampCmp"], lambda: ("Cmp", compare_op(_find_def(cms, "CountMinSketch", "add_alt"), None, "INT32_T_MAX", "cms add clamp")))
-    attempt(["cmsRemoveKeepCmp"], lambda: ("Cmp", compare_op(_find_def(cms, "CountMinSketch", "remove_alt"), None, "INT32_T_MIN", "cms remove clamp")))
-    attempt(["cmsTotalMaxCmp"], lambda: ("Cmp", compare_op(_find_def(cms, "CountMinSketch", "add_alt"), "elements_added", "INT64_T_MAX", "cms total clamp")))
-    attempt(["cbfAddClampCmp"], lambda: ("Cmp", compare_op(_find_def(cbf, "CountingBloomFilter", "add_alt"), None, "UINT32_T_MAX", "cbf add clamp")))
-    attempt(["qfResizeCmp"], lambda: ("Cmp", compare_op(_find_def(qf, "QuotientFilter", "add_alt"), "load_factor", "_max_load_factor", "qf auto-resize test")))
+    attempt(["expGrowCmp"], lambda: guard_fact(_find_def(exp, "ExpandingBloomFilter", "__check_for_growth"), "elements_added", "est_elements", "expanding growth test"))
+    attempt(["rotReadyCmp"], lambda: guard_fact(_find_def(exp, "RotatingBloomFilter", "__rotate_bloom_filter"), "elements_added", "estimated_elements", "rotating ready test"))
+    attempt(["rotRoomCmp"], lambda: guard_fact(_find_def(exp, "RotatingBloomFilter", "__rotate_bloom_filter"), "current_queue_size", "_queue_size", "rotating room test"))
+    attempt(["cmsAddClampCmp"], lambda: guard_fact(_find_def(cms, "CountMinSketch", "add_alt"), None, "INT32_T_MAX", "cms add clamp", clamp=True))
+    attempt(["cmsRemoveKeepCmp"], lambda: guard_fact(_find_def(cms, "CountMinSketch", "remove_alt"), None, "INT32_T_MIN", "cms remove clamp", clamp=True))
+    attempt(["cmsTotalMaxCmp"], lambda: guard_fact(_find_def(cms, "CountMinSketch", "add_alt"), "elements_added", "INT64_T_MAX", "cms total clamp", clamp=True))
+    attempt(["cbfAddClampCmp"], lambda: guard_fact(_find_def(cbf, "CountingBloomFilter", "add_alt"), None, "UINT32_T_MAX", "cbf add clamp", clamp=True))
+    attempt(["qfResizeCmp"], lambda: guard_fact(_find_def(qf, "QuotientFilter", "add_alt"), "load_factor", "_max_load_factor", "qf auto-resize test", allow_offset=False))
     def qf_load():
         mlf = self_attr_assign(_find_def(qf, "QuotientFilter", "__set_params"), "_max_load_factor")
         if len(mlf) != 1 or not isinstance(mlf[0], float):
@@ -453,7 +518,7 @@ def old_definitions(dest):
     import re as _re
 
     for i, line in enumerate(lines):
-        m = _re.match(r"def (\w+?)(Bits|Num|Den)? :", line)
+        m = _re.match(r"def (\w+?)(Bits|Num|Den|Raw|Off)? :", line)
         if m:
             base = m.group(1) if m.group(2) else m.group(1)
             out.setdefault(base, []).append(line)
@@ -478,6 +543,12 @@ def render(facts, fallback=None):
             out.append(f"def {name} : Layout := {lean_layout(val)}")
         elif kind == "Cmp":
             out.append(f"def {name} : Cmp := .{val}")
+        elif kind == "Guard":
+            raw, off, canon = val
+            out.append(f"/-- as written: `subject {raw} bound{off:+d}`; canonical operator against the bound itself (Lemmas/GuardCanon.lean) -/")
+            out.append(f"def {name} : Cmp := .{canon}")
+            out.append(f"def {name}Raw : Cmp := .{raw}")
+            out.append(f"def {name}Off : Int := {off}" if off >= 0 else f"def {name}Off : Int := -{-off}")
         elif kind == "Bool":
             out.append(f"def {name} : Bool := {'true' if val else 'false'}")
         elif kind == "Float":
